@@ -14,9 +14,8 @@
  STRIDE       every cell address is offset(pos, S) applied to the storage B of the SAME grid: grid::object uses its
               own size_ with its own container_, pos_ref_iterator its own size_ with its own iterator_, and whoever
               constructs a pos_ref_iterator passes X.begin() and X.size() of one and the same X
-Declined: the row-major bijection (offset's arithmetic), next_position carry logic, end_position, iteration
-order -- stride and carry arithmetic over run-time extents. grid::clamped_sup_signed's unguarded get_unsafe is
-C01's open known finding.
+The arithmetic clauses (offset formula, successor inside a range, end position, iterator wiring) are in c08_arith.py.
+Not decided: overflow of the offset arithmetic. grid::clamped_sup_signed's unguarded get_unsafe is C01's open known finding.
 """
 import re
 
